@@ -1,9 +1,13 @@
+\* quick design config: 2 services x 2 endpoints, node port on/off, <= 2 environment edits (adding a
+\* service with its first endpoints is one edit), <= 1 crash / restart at any write point
 CONSTANTS
   Svcs = {1, 2}
   Eps = {1, 2}
-  Opts = {"np", "xl"}
+  Opts = {"np"}
+  EpStates = {"none", "rl", "rr", "nr"}
+  InitEpStates = {"rl", "rr"}
   NPIPs = {"192.168.0.1"}
-  MaxChanges = 3
+  MaxChanges = 2
   MaxCrashes = 1
   Order <- OrderCode
 INIT Init
